@@ -27,12 +27,20 @@
 #include <tbox/base/wrapped_recorder.h>
 #include <tbox/event/loop.h>
 #include <tbox/event/timer_event.h>
+#include <tbox/base/verif_hook.h>
 
 namespace tbox {
 namespace alarm {
 
 bool Alarm::GetCurrentUtcTime(uint32_t &utc_sec)
 {
+#ifdef CPP_TBOX_VERIF
+  {
+    uint32_t verif_usec = 0;
+    if (verif::Hooks().wall_clock != nullptr && verif::Hooks().wall_clock(utc_sec, verif_usec))
+      return true;
+  }
+#endif
   struct timeval utc_tv;
   if (gettimeofday(&utc_tv, nullptr) == 0) {
     utc_sec = utc_tv.tv_sec;
@@ -45,6 +53,10 @@ bool Alarm::GetCurrentUtcTime(uint32_t &utc_sec)
 
 bool Alarm::GetCurrentUtcTime(uint32_t &utc_sec, uint32_t &utc_usec)
 {
+#ifdef CPP_TBOX_VERIF
+  if (verif::Hooks().wall_clock != nullptr && verif::Hooks().wall_clock(utc_sec, utc_usec))
+    return true;
+#endif
   struct timeval utc_tv;
   if (gettimeofday(&utc_tv, nullptr) == 0) {
     utc_sec = utc_tv.tv_sec;
@@ -132,6 +144,13 @@ uint32_t Alarm::remainSeconds() const {
 namespace {
 //! 获取系统的时区偏移秒数
 int GetSystemTimezoneOffsetSeconds() {
+#ifdef CPP_TBOX_VERIF
+  {
+    int verif_off = 0;
+    if (verif::Hooks().tz_offset != nullptr && verif::Hooks().tz_offset(verif_off))
+      return verif_off;
+  }
+#endif
 #if defined(__MINGW32__) || defined(_MSC_VER) || defined(_WIN32)
 #if defined(__MINGW32__) && !__has_include(<_mingw_stat64.h>)
   LogErr("can't get timezone offset, not support.");
